@@ -183,6 +183,16 @@ fn normalized(c: &Client, gid: &GroupId) -> Value {
     json!({"mls": o.mls.as_ref().map(|m| json!({"epoch": m.epoch, "members": m.members, "ext": m.ext})), "record": rec, "relays": o.relays, "messages": msgs, "pending_commit": o.pending_commit, "state": o.record_state, "proposals": o.proposal_refs})
 }
 
+/// names of the stored rollback snapshots of the group (deterministic: group id, epoch, commit id)
+fn stored_snapshots(c: &Client, gid: &GroupId) -> Vec<String> {
+    use crate::with_mdk;
+    use mdk_storage_traits::MdkStorageProvider;
+    use openmls::prelude::OpenMlsProvider;
+    let mut v: Vec<String> = with_mdk!(c, m => m.provider.storage().list_group_snapshots(gid)).unwrap_or_default().into_iter().map(|(n, _)| n).collect();
+    v.sort();
+    v
+}
+
 pub struct CrashStats {
     pub points: u64,
 }
@@ -198,20 +208,25 @@ pub fn enumerate(rep: &mut Report, prop: &str, hist_name: &str, db0: &Path, gid:
     std::fs::copy(db0, &ref_db).expect("copy");
     let mut ref_results: Vec<String> = Vec::new();
     let mut initial_norm = json!(null);
+    // stored snapshot names at every call boundary of the uninterrupted run (index i = before call i)
+    let mut ref_snaps: Vec<Vec<String>> = Vec::new();
     let reference: Vec<Value> = {
         let st = open(&ref_db, &db_key).expect("open ref");
         let m = MDK::builder(st).build();
         let mut v = Vec::new();
         let c = Client { name: "ref".into(), keys: keys.clone(), mdk: Mdk::Sql(m, std::sync::Arc::new(SqlStoreFile { path: ref_db.clone() })), reopened: true };
         initial_norm = normalized(&c, gid);
+        ref_snaps.push(stored_snapshots(&c, gid));
         for (_, call) in &calls {
             if let Mdk::Sql(mm, _) = &c.mdk {
                 ref_results.push(do_call(mm, gid, keys, call));
             }
             v.push(normalized(&c, gid));
+            ref_snaps.push(stored_snapshots(&c, gid));
         }
         v
     };
+    let ref_snaps = &ref_snaps;
     let final_ref = reference.last().cloned().unwrap_or(json!(null));
     rep.sample(json!({"history": hist_name, "uninterrupted_results": calls.iter().zip(ref_results.iter()).map(|(c, r)| format!("{}[{}] -> {}", c.1.label(), c.0, r)).collect::<Vec<_>>(), "final_record": final_ref["record"], "final_relays": final_ref["relays"]}));
     // the same history with one clean restart (drop, reopen) before call i: tells crash damage from the
@@ -358,6 +373,18 @@ pub fn enumerate(rep: &mut Report, prop: &str, hist_name: &str, db0: &Path, gid:
                     let rel = |v: &Value| -> Vec<String> { v["relays"].as_array().map(|a| a.iter().filter_map(|x| x.as_str().map(|s| s.to_string())).collect()).unwrap_or_default() };
                     if rel(&here) != rel(b) && rel(&here) != rel(after) {
                         findings.lock().unwrap().push((format!("{prop}|relay-set-half-replaced|{call_label}@{label}"), format!("after a crash at {site} the relay set is {} (before the call {}, after it {})", here["relays"], b["relays"], after["relays"]), json!({"site": site, "k": k})));
+                    }
+                }
+                // 2b. a rollback is one transaction that restores the group and consumes its snapshot: a process that dies inside
+                // it finds, after reopening, the snapshots it had before the call (nothing restored, nothing consumed)
+                if label.starts_with("restore:") {
+                    let have = stored_snapshots(&c, gid);
+                    if let Some(want) = ref_snaps.get(*idx) {
+                        if have != *want {
+                            let lost = want.iter().filter(|n| !have.contains(n)).count();
+                            let extra = have.iter().filter(|n| !want.contains(n)).count();
+                            findings.lock().unwrap().push((format!("{prop}|rollback-not-all-or-nothing|{hist_name}|{call_label}[{}]@{label}|snapshots-after-reopen:lost={lost},extra={extra}", calls[*idx].0), format!("after a crash at {site}, inside the rollback transaction, the reopened database holds other rollback snapshots of the group than before the call ({lost} gone, {extra} new) although the group itself was not rolled back"), json!({"history": hist_name, "site": site, "k": k, "before": want, "reopened": have})));
+                        }
                     }
                 }
                 // 3. offering the interrupted call again, then all later ones, ends like the uninterrupted run
